@@ -47,7 +47,15 @@ for i in (1, 2):
     ok = res.get("build_ok") and res["demo_with"] == "FAIL" and res["demo_without"] == "PASS"
     print(P, i, "build", res.get("build_ok"), "demo with/without:", res["demo_with"], res["demo_without"], "check exit", rc, "violations", len(viol), "=> keep" if ok else "=> NOT confirmed")
     if not ok: continue
-    k = i + int(os.environ.get("SEED_OFFSET", "0"))
+    if "SEED_FORCE_OFFSET" in os.environ:
+        k = i + int(os.environ["SEED_FORCE_OFFSET"])
+    else:
+        # never overwrite a stored seed: continue after the highest index in use for this property (re-storing the
+        # same patch reuses its slot)
+        import glob
+        used = {int(d.rsplit("-", 1)[1]): d for d in glob.glob(f"/verif/seeded/{P}-*")}
+        same = [n for n, d in used.items() if open(d + "/patch.diff").read() == open(diff).read()]
+        k = same[0] if same else (max(used) + 1 if used else 1)
     dst = f"/verif/seeded/{P}-{k}"; os.makedirs(dst, exist_ok=True)
     shutil.copy(diff, f"{dst}/patch.diff"); shutil.copy(demo, f"{dst}/demo_test.go.txt")
     sec = re.split(r"\n(?=#+ )", notes)
